@@ -1778,7 +1778,10 @@ impl<'de, R: Read<'de>> de::SeqAccess<'de> for DescribedAccess<'_, R> {
                 // list headers
                 if self.counter == 0 {
                     if let StructEncoding::DescribedList = self.de.struct_encoding {
-                        self.field_count += self.consume_list_header()?;
+                        // the count comes from the peer: it only bounds the loop
+                        self.field_count = self
+                            .field_count
+                            .saturating_add(self.consume_list_header()?);
                     }
                 }
                 result
@@ -1818,7 +1821,9 @@ impl<'de, R: Read<'de>> de::MapAccess<'de> for DescribedAccess<'_, R> {
                 let result = seed.deserialize(self.as_mut()).map(Some);
                 if self.counter == 0 {
                     if let StructEncoding::DescribedMap = self.de.struct_encoding {
-                        self.field_count += self.consume_map_header()?;
+                        self.field_count = self
+                            .field_count
+                            .saturating_add(self.consume_map_header()?);
                     }
                 }
                 result
